@@ -146,16 +146,23 @@ impl SizeRegs {
         if !self.regs.contains_key(&size) {
             let path = format!("{}/sizereg-{}.json", crate::world::POOL_DIR, size);
             let d = w.def("R");
-            let cached: Option<Reg> = std::fs::read_to_string(&path).ok().and_then(|t| serde_json::from_str(&t).ok()).filter(|r: &Reg| std::path::Path::new(&r.def.value.tails_location).exists() && r.def.cred_def_id == d.cid);
+            let fp = crate::world::fingerprint(d);
+            // cached registry: only for the very key material of the pooled definition (fingerprint), tails file in place
+            let cached: Option<Reg> = std::fs::read_to_string(&path).ok().and_then(|t| serde_json::from_str::<Value>(&t).ok())
+                .filter(|j| j["fingerprint"] == json!(fp)).and_then(|j| serde_json::from_value::<Reg>(j["reg"].clone()).ok())
+                .filter(|r: &Reg| std::path::Path::new(&r.def.value.tails_location).exists() && r.def.cred_def_id == d.cid);
             let reg = match cached {
                 Some(r) => r,
                 None => {
-                    let tails_dir = format!("{}/tails", crate::world::POOL_DIR);
+                    // made for this process only unless `bin/setup` is running (see world.rs: the pool is never written by a check)
+                    let tails_dir = format!("{}/tails", crate::world::fixture_dir());
                     std::fs::create_dir_all(&tails_dir).unwrap();
                     let mut tw = TailsFileWriter::new(Some(tails_dir));
                     let (def, def_priv) = issuer::create_revocation_registry_def(&d.cd, d.cid.clone(), &format!("sz{size}"), RegistryType::CL_ACCUM, size, &mut tw).unwrap();
                     let r = Reg { rid: RevocationRegistryDefinitionId::new(format!("did:web:rho/revreg/size/{size}")).unwrap(), def, def_priv, size };
-                    std::fs::write(&path, serde_json::to_string(&r).unwrap()).ok();
+                    if crate::world::pool_writable() {
+                        std::fs::write(&path, serde_json::to_string(&json!({"fingerprint": fp, "reg": r})).unwrap()).ok();
+                    }
                     r
                 }
             };
